@@ -586,6 +586,12 @@ def byte_role(e):
         return "?"
     if e[0] == "const":
         return "0x%02x" % e[1] if isinstance(e[1], int) and 0 <= e[1] < 256 else str(e[1])
+    x = e
+    while x[0] == "cast":
+        x = x[1]
+    if x[0] == "index" and isinstance(x[1], tuple) and x[1][0] == "call" and x[1][1].rsplit("::", 1)[-1] == "to_be_bytes" and x[2][0] == "const":
+        # byte i of the big-endian encoding of an integer (merged into BE<n> when all bytes are stored next to each other)
+        return "be[%s]:%s" % (x[2][1], sym_expr(x[1][2][0]) if x[1][2] else "?")
     s = sym_expr(e)
     names = [x[2] for x in expr.walk(e) if x[0] == "field" and not str(x[2]).isdigit()]
     args = ["arg%d" % x[1] for x in expr.walk(e) if x[0] == "arg"]
